@@ -151,6 +151,7 @@ type harness struct {
 	relayArr  []aobs // UDP: datagrams the server's RTP socket read from the publisher
 	pkPub     []pktMeta
 	fpNoMedia map[[3]uint32]int
+	pubSent   atomic.Int64 // relay over UDP: RTP datagrams the publisher socket sent
 	pubSess   *gortsplib.ServerSession
 	pubClosed chan struct{}
 }
@@ -891,6 +892,18 @@ func (h *harness) startPublisher() error {
 	}
 	if sc.Relay == "udp" {
 		c.Protocol = new(gortsplib.ProtocolUDP)
+		c.ListenPacket = func(network, address string) (net.PacketConn, error) {
+			pc, err := net.ListenPacket(network, address)
+			if err != nil {
+				return nil, err
+			}
+			uc, ok := pc.(*net.UDPConn)
+			if !ok {
+				pc.Close()
+				return nil, fmt.Errorf("unexpected packet conn type %T", pc)
+			}
+			return &pubPC{UDPConn: uc, sent: &h.pubSent, port: uc.LocalAddr().(*net.UDPAddr).Port}, nil
+		}
 	} else {
 		c.Protocol = new(gortsplib.ProtocolTCP)
 	}
@@ -974,7 +987,18 @@ func (h *harness) publishAll() {
 		}
 		quiet := 1500 * time.Millisecond
 		if sc.Relay == "udp" {
-			quiet = 80 * time.Millisecond
+			// nothing may be in flight when the publisher is closed: its queue must be empty (everything
+			// accepted was sent) and the server must have read what was sent (or stay quiet for a while)
+			quiet = 300 * time.Millisecond
+			if int(h.pubSent.Load()) < want {
+				last = time.Now()
+			}
+			h.relayMu.Lock()
+			arrived := len(h.relayArr)
+			h.relayMu.Unlock()
+			if int(h.pubSent.Load()) >= want && arrived >= want && settled && time.Since(last) > 20*time.Millisecond {
+				break
+			}
 		}
 		if (time.Since(last) > quiet && settled) || time.Since(start) > 20*time.Second {
 			break
